@@ -595,9 +595,10 @@ def parsed_sem_verilog(ck, case, c):
         which both build and every port position is assigned);
     (b) `verilogOKB` evaluated by the driver (tag coverage) and, for covered cases, the hypotheses `wfB`/`orderOKB`/`forksOKB`/
         `linesDrivenB` of `verilog_end_to_end` with the real topological order;
-    (c) covered cases: the model `sigma` (driver `verilogsem`: `vEval`, accepted by `vModelB`) observed at output ports and state
-        elements == the REAL LogicSim(m=2) on the real UNRESOLVED circuit (the theorem is about the unresolved netlist, in which a
-        cell means what its kind name means to the simulator), on sampled assignments."""
+    (c) covered cases in which the hypotheses of (b) hold (every cell kind is known to the simulator): the model `sigma` (driver
+        `verilogsem`: `vEval`, accepted by `vModelB`) observed at output ports and state elements == the REAL LogicSim(m=2) on the
+        real UNRESOLVED circuit (the theorem is about the unresolved netlist, in which a cell means what its kind name means to the
+        simulator), on sampled assignments; for the library of primitives additionally == the generator's ground truth."""
     kinds = [s_[1] for s_ in case['ast']['stmts'] if s_[0] == 'inst']
     fix, one = probe_cfg()
     cfg = f"{1 if case['bf'] else 0}{1 if fix else 0}{1 if one else 0}"
@@ -628,6 +629,7 @@ def parsed_sem_verilog(ck, case, c):
                       f'model {dump[max(0, k - 20):k + 30]!r} real {real[max(0, k - 20):k + 30]!r}', inp=_slim(case)); return
     ck.hist['parsed-sem:verilog:dump-equal'] += 1
     if not okv: return
+    hyp = False
     try:
         order = ','.join(str(n.index) for n in c.topological_order())
         cert = common.run_driver([f'net {dump}', f'netcert {order}', f'netspeccert {order}'])
@@ -637,7 +639,12 @@ def parsed_sem_verilog(ck, case, c):
         if not hyp: ck.hist[f'parsed-sem:verilog:e2e-hyp-failed:{cls}:{cert[1]} {cert[2]}'] += 1
     except Exception as ex:
         ck.hist['parsed-sem:verilog:e2e-hyp:error'] += 1
-    # denotation vs the real simulator on the unresolved circuit
+    # denotation vs the real simulator on the unresolved circuit — where the simulator schedules every line (`linesDrivenB`:
+    # every cell kind is known to its prefix table); elsewhere the unresolved circuit has no simulation to compare with
+    if not hyp:
+        ck.hist['parsed-sem:verilog:denotation-not-compared(kinds unknown to the simulator)'] += 1
+        ck.hist['parsed-sem:verilog:covered'] += 1
+        return
     snodes = list(c.s_nodes)
     if [f'c:{pct(n.name)}' for n in snodes] != names:
         ck.broken_tie('parsed_sem (verilog): s_nodes', f'model {names} != real {[n.name for n in snodes]}', inp=_slim(case)); return
@@ -1218,6 +1225,7 @@ def probes(ck, notes):
 def run(ck):
     ck.prove([], TARGETS, theorems())
     notes = {}
+    for k in ('BENCH', 'PRIM'): cells.LIBS.pop(k, None)        # synthetic libraries of an earlier run in this process (drift re-runs)
     for p in cells.catalog_check(): notes['datasheet vs library pin table: ' + p] = 1
     cells.LIBS.setdefault('BENCH', bench_lib())
     cells.LIBS.setdefault('PRIM', prim_entries()[0])
